@@ -35,7 +35,11 @@ class TreeGen:
                 ss.append(("usectx", r.randint(0, 2)))
             elif c < 0.8 and depth > 0:
                 x = self.fresh()
-                ss.append(("scope", x, self.block(depth - 1, set())))
+                if r.random() < 0.3:
+                    # provide_context_in_new_scope: visible inside the body only
+                    ss.append(("providein", x, r.randint(0, 2), ("lit", r.randint(1, 9)), self.block(depth - 1, set())))
+                else:
+                    ss.append(("scope", x, self.block(depth - 1, set())))
                 self.handles.append(x)
             elif c < 0.9 and depth > 0 and not in_effect:
                 x = self.fresh()
@@ -89,6 +93,11 @@ class Ref:
             elif k == "scope":
                 n = self.new(cur)
                 self.block(s[2], n, env)
+                env[s[1]] = n
+            elif k == "providein":
+                n = self.new(cur)
+                self.nodes[n]["ctx"][s[2]] = s[3][1]
+                self.block(s[4], n, env)
                 env[s[1]] = n
             elif k == "effect":
                 n = self.new(cur)
@@ -181,6 +190,10 @@ def lexical_expectations(prog):
                 walk(s[2], c2)
             elif k in ("effect", "memo"):
                 walk(s[2][2], chain + [{}])
+            elif k == "providein":
+                c2 = chain + [{s[2]: s[3][1]}]
+                scopes[s[1]] = c2
+                walk(s[4], c2)
             elif k == "if":
                 walk(s[2], chain)
                 walk(s[3], chain)
